@@ -17,6 +17,14 @@ static long long fake_ns = 1000;
 int clock_gettime(clockid_t id, struct timespec *tp)
 {
 	(void) id;
+	static int shifted = 0;
+	if (!shifted) {
+		/* MARK_DRV_CLOCK_SHIFT: a second process of the same trace gets clocks that never coincide with the first */
+		const char *e = getenv("MARK_DRV_CLOCK_SHIFT");
+		if (e)
+			fake_ns += atoll(e);
+		shifted = 1;
+	}
 	fake_ns += 10;
 	tp->tv_sec = fake_ns / 1000000000LL;
 	tp->tv_nsec = fake_ns % 1000000000LL;
